@@ -18,12 +18,17 @@
 (*   end{nodes, vals, stabilized, panic, capped}   part (R): no panic,     *)
 (*        worklist empty, the node list is the node set of Cfg!Graph and   *)
 (*        every node value equals the least solution                       *)
-(* Rejections print <<"BAD", event index, reason>>; after one the rest of  *)
+(* Rejections print <<"BAD", event index, code>>; after one the rest of    *)
 (* the run is skipped (its later events depend on the rejected one).       *)
+(* Codes of cb events: InterprocFix!CbVerdict; of end events: panic,       *)
+(* result-worklist (worklist not empty after compute()), graph-nodes (the  *)
+(* node list is not the node set of Cfg!Graph), result-len, result-values  *)
+(* (a node value differs from the least solution; a DIAG line names one).  *)
 (* Inputs outside the statement's quantifier (program not well-formed,     *)
 (* analysis not a monotone table-driven one, a table the harness forgot, a *)
-(* recorded answer that is not the table's) print <<"OUTSIDE", ..>>: a     *)
-(* defect of the harness, reported by the driver as a tool error.          *)
+(* recorded answer that is not the table's) print <<"OUTSIDE", l, code>>   *)
+(* with code class / start / table / answer: a defect of the harness,      *)
+(* reported by the driver as a tool error.                                 *)
 (***************************************************************************)
 EXTENDS InterprocFix, Json, IOUtils
 
@@ -49,10 +54,10 @@ Outside(why) == /\ PrintT(<<"OUTSIDE", l, why>>)
 TReset ==
   /\ More /\ Ev.ev = "reset" /\ l' = l + 1
   /\ IF ~(Ev.dir \in {"fwd", "bwd"} /\ WellFormed(Ev.program) /\ AnalysisInClass(Ev.an))
-       THEN Outside("program not well-formed or analysis not in the class")
+       THEN Outside("class")
      ELSE LET S == EdgeSystem(Ev.program, Ev.an, Ev.dir, Ev.start, Ev.default) IN
-          IF ~S.wf THEN Outside("start values / default outside the statement")
-          ELSE IF S.missing # {} THEN Outside("the analysis lacks a table the equations need")
+          IF ~S.wf THEN Outside("start")
+          ELSE IF S.missing # {} THEN Outside("table")
           ELSE /\ an' = Ev.an /\ sys' = S /\ lfp' = LFPOf(Ev.an, S)
                /\ prev' = NoCb /\ skip' = FALSE
 
@@ -68,18 +73,18 @@ TCb ==
   /\ LET e == CbOf(Ev)
          v == CbVerdict(an, sys, lfp, prev, e)
      IN  IF v # "" THEN Bad(v)
-         ELSE IF e.o # TableAnswer(an, sys, e) THEN Outside("recorded answer is not the table's")
+         ELSE IF e.o # TableAnswer(an, sys, e) THEN Outside("answer")
          ELSE prev' = e /\ UNCHANGED <<an, sys, lfp, skip>>
 
 \* "" if the final state is the one the statement demands
 EndVerdict(e) ==
   IF e.panic # "" THEN "panic"
-  ELSE IF ~e.stabilized THEN "result: the worklist is not empty after compute()"
+  ELSE IF ~e.stabilized THEN "result-worklist"
   ELSE IF Len(e.nodes) # Cardinality(sys.nodes) \/ {e.nodes[i] : i \in DOMAIN e.nodes} # sys.nodes
-    THEN "graph: the nodes are not those of Cfg!Graph"
-  ELSE IF Len(e.vals) # Len(e.nodes) THEN "result: no value list"
+    THEN "graph-nodes"
+  ELSE IF Len(e.vals) # Len(e.nodes) THEN "result-len"
   ELSE IF \E i \in DOMAIN e.nodes : e.vals[i] # lfp[e.nodes[i]]
-    THEN "result: node values differ from the least solution"
+    THEN "result-values"
   ELSE ""
 
 TEnd ==
@@ -87,7 +92,7 @@ TEnd ==
   /\ LET v == EndVerdict(Ev) IN
      IF v = "" THEN skip' = TRUE /\ UNCHANGED <<an, sys, lfp, prev>>
      ELSE /\ Bad(v)
-          /\ IF v = "result: node values differ from the least solution"
+          /\ IF v = "result-values"
                THEN LET i == CHOOSE j \in DOMAIN Ev.nodes : Ev.vals[j] # lfp[Ev.nodes[j]]
                     IN  PrintT(<<"DIAG", l, Ev.nodes[i].k, Ev.nodes[i].blk, Ev.vals[i], lfp[Ev.nodes[i]]>>)
                ELSE TRUE
